@@ -9,7 +9,7 @@ RULE = ('case = reg.run <big-endian?> <areas> <initial words> <entries> <ops>: a
         'registers with trivial/fail/min/max/range/callback constraints), then a history of operations; after EVERY operation the result class (success / refused / refused-as-NOENTRY / '
         'uninitialised), for get the exact code, type and value, and a dump of every word of every area plus the touched flags.  C01 cases: every type x both byte orders x memory/callback backing x '
         'every constraint kind with bounds at type min/max/0; values: exhaustive for 16-bit types (thorough) / stride (quick), boundaries +-1 of each bound, float classes (zeros, subnormals, '
-        'infinities, quiet and signalling NaNs), random; checked and unchecked set, wrongly typed values, handles 0..entries+2, 2^32-1, 2^32-2 and every k+2^b that aliases a register when truncated.  Non-trivial: every case.')
+        'infinities, quiet and signalling NaNs), random; checked and unchecked set, wrongly typed values, handles 0..entries+2, 2^32-1, 2^32-2 and every k+2^b that aliases a register when truncated.  Op 13: typed sets while the write driver of a callback-backed area fails with each of the seven access codes (no success may be reported, nothing stored, the next get returns the old value).  Non-trivial: every case.')
 TRUSTED_BASE = TB_COMMON + ['Model/RegTable.v hand-written from src/registers/core.c; float comparison and isnormal modelled on IEEE-754 bit patterns and PROVED equal to the comparison / classification of Flocq 4 formalisation of IEEE-754 binary32 / binary64 (Proof/FloatOrder.v); tie = correspondence',
                             'the corollaries C01_float32/64_order_is_Bcompare (Flocq validated numbers b32_of_bits / b64_of_bits) depend on the standard-library axioms ClassicalDedekindReals.sig_not_dec, ClassicalDedekindReals.sig_forall_dec, FunctionalExtensionality.functional_extensionality_dep, Classical_Prop.classic (brought in by Flocq validity proofs over the reals); every other theorem is closed under the global context']
 ASSUMPTIONS = ['validator callbacks are pure functions of the value', 'custom area callbacks behave like memory (succeed and store)',
@@ -75,7 +75,27 @@ def nontrivial(c):
     return True
 NO_SHRINK = True
 
+def failing_backend(rng):
+    """typed sets while the write driver of a callback-backed area fails with each access code (op 13): the set must not report
+    success, nothing is stored, the next get returns the old value; memory-backed areas never reach a failing driver"""
+    for t in range(8):
+        for be in (0, 1):
+            for kind in (CUSTOM, MEM):
+                ck = rand_check(rng, t, rng.choice([0, 2, 3, 4]))
+                d = acceptable_default(rng, t, ck)
+                tab = Table(be, [(100, TSIZE[t] + 1, 3, kind)], [(t, d, 100, ck[0], ck[1], ck[2]), (0, 9, 100 + TSIZE[t], 0, 0, 0)],
+                            [rng.randrange(65536) for _ in range(TSIZE[t] + 1)])
+                ops = [(0,)]
+                vals = boundary_values(rng, t, ck, 2)
+                for code in range(1, 8):
+                    for chk in (1, 0):
+                        v = rng.choice(vals)
+                        ops += [(13, 0, t, v, chk, code), (3, 0), (1, 0, t, v), (3, 0), (13, 1, 0, 5, chk, code), (3, 1)]
+                ops += [(13, 7, 0, 5, 1, 7), (13, 0, (t + 1) % 8, 5, 1, 7)]
+                yield tab.line(ops)
+
 def gen(rng, tier):
     yield from gen0(rng, tier)
+    yield from failing_backend(rng)
     # the first tables again, moved so that their area ends at 2^32
     yield from at_top(gen0, rng, tier, 192 if tier == 'thorough' else 48)
